@@ -437,6 +437,13 @@ func (w *lw) faulted(op h.Op, err error) bool {
 		return false
 	}
 	w.res.Count("ops_hit_by_storage_error", 1)
+	if err == nil && w.expiredAround() {
+		// the call that failed may have been the purge of an expired item met
+		// on the way (its error is not the operation's): those items become
+		// don't-cares, the operation itself is judged as usual
+		w.obsFaulted()
+		return false
+	}
 	if err == nil {
 		w.fail("acknowledged-despite-storage-failure", op.K, "%s returned success although a storage call it made failed: %s", op.K, op.String())
 	}
@@ -458,6 +465,21 @@ func (w *lw) faulted(op h.Op, err error) bool {
 		}
 	}
 	return true
+}
+
+// expiredAround: some item has expired and may not have been purged yet.
+func (w *lw) expiredAround() bool {
+	for ln, l := range w.model.Locs {
+		if len(w.model.Pending[ln]) > 0 {
+			return true
+		}
+		for _, it := range l.Items {
+			if !w.model.Live(it) {
+				return true
+			}
+		}
+	}
+	return false
 }
 
 // obsFaulted handles an injected failure that fired during an observation
@@ -1785,24 +1807,51 @@ func (w *lw) after(op h.Op) {
 		if !w.model.Enabled(l) && !w.prof.Lifecycle {
 			continue
 		}
-		for _, id := range w.ids(ln) {
-			w.checkGet(ln, id, p, op)
-			if w.prof.Lifecycle {
-				w.checkRuleEnabled(ln, id, p)
-			}
-		}
-		if w.prof.Search {
-			for _, pat := range w.batteryMaps("patterns") {
-				w.checkSearch(ln, pat, false, p, op)
-				if len(w.model.Parents(l)) > 0 {
-					w.checkSearch(ln, pat, true, p, op)
+		// the order of the battery's parts comes from the plan: the first
+		// observation after an expiry instant (or any other change) is not
+		// always a GetFact, which would purge what the others should find
+		doGets := func() {
+			for _, id := range w.ids(ln) {
+				w.checkGet(ln, id, p, op)
+				if w.prof.Lifecycle {
+					w.checkRuleEnabled(ln, id, p)
 				}
 			}
 		}
-		if w.prof.Dispatch {
-			for _, ev := range w.batteryMaps("events") {
-				w.checkDispatch(ln, ev, p, op)
+		doSearch := func() {
+			if w.prof.Search {
+				for _, pat := range w.batteryMaps("patterns") {
+					w.checkSearch(ln, pat, false, p, op)
+					if len(w.model.Parents(l)) > 0 {
+						w.checkSearch(ln, pat, true, p, op)
+					}
+				}
 			}
+		}
+		doDispatch := func() {
+			if w.prof.Dispatch {
+				for _, ev := range w.batteryMaps("events") {
+					w.checkDispatch(ln, ev, p, op)
+				}
+			}
+		}
+		switch w.plan.CfgS("battery_order", "get-search-dispatch") {
+		case "dispatch-search-get":
+			doDispatch()
+			doSearch()
+			doGets()
+		case "search-dispatch-get":
+			doSearch()
+			doDispatch()
+			doGets()
+		case "dispatch-get-search":
+			doDispatch()
+			doGets()
+			doSearch()
+		default:
+			doGets()
+			doSearch()
+			doDispatch()
 		}
 		if w.prof.CheckStore {
 			w.checkStore(ln)
